@@ -49,7 +49,11 @@ def names_scenario(sid, hist, rng, lag, collide=False):
             cur[h["c"]] = o
             steps.append({"k": "apply", "obj": o})
         elif h["k"] == "delete":
-            steps.append({"k": "delete", "name": spell[h["c"]]})
+            if h.get("tomb"):
+                # the informer's watch is interrupted while the object is deleted: the relist finds the deletion (a tombstone is delivered)
+                steps += [{"k": "cut"}, {"k": "delete", "name": spell[h["c"]]}, {"k": "sleep", "ms": 1500}, {"k": "heal"}, {"k": "sleep", "ms": 65000}]   # (the reflector backs off up to 30 s x jitter 2 before it relists)
+            else:
+                steps.append({"k": "delete", "name": spell[h["c"]]})
             cur[h["c"]] = None
         else:
             continue
@@ -162,8 +166,14 @@ def run(prop, tier, replay):
                     if bool(nu.violation) != expect:
                         raise Infra("NameUpdate.tla variant %s: unexpected result %s" % (variant, nu.violated()))
                     states, trans = states + nu.distinct, trans + nu.generated
+                # deletions delivered as tombstones: handled verified, dropped (the handler discards them) refuted
+                for tomb, expect in (("handled", False), ("dropped", True)):
+                    nt = vlib.tlc("dataplane", "Names", "NamesTomb.cfg", workers=8, timeout=900, consts={"Tombstones": '"%s"' % tomb})
+                    if bool(nt.violation) != expect:
+                        raise Infra("Names.tla tombstones %s: unexpected result %s" % (tomb, nt.violated()))
+                    states, trans = states + nt.distinct, trans + nt.generated
                 n = 120 if tier == "quick" else 1500
-                gen = vlib.tlc("dataplane", "NamesGen", "NamesGen.cfg", workers=1, timeout=900, simulate="num=%d" % (n * 3), depth=40, tlc_seed=seed)
+                gen = vlib.tlc("dataplane", "NamesGen", "NamesGen.cfg", workers=1, timeout=900, simulate="num=%d" % (n * 3), depth=40, tlc_seed=seed, consts={"Tombstones": '"handled"'})
                 hists = list({vlib.canon(h): h for h in gen.json_prints("HIST")}.values())
                 rng.shuffle(hists)
                 hists = hists[:n]
@@ -208,7 +218,7 @@ def run(prop, tier, replay):
                     scs.append(reload_scenario(i + 1, h, rng))
                     kinds[str(i + 1)] = "reload"
                 # name histories with a lagging worker (requeues of superseded versions): judged by the differential only
-                gen2 = vlib.tlc("dataplane", "NamesGen", "NamesGen.cfg", workers=1, timeout=900, simulate="num=%d" % n, depth=40, tlc_seed=seed + 1)
+                gen2 = vlib.tlc("dataplane", "NamesGen", "NamesGen.cfg", workers=1, timeout=900, simulate="num=%d" % n, depth=40, tlc_seed=seed + 1, consts={"Tombstones": '"handled"'})
                 h2 = list({vlib.canon(h): h for h in gen2.json_prints("HIST")}.values())
                 rng.shuffle(h2)
                 for i, h in enumerate(h2[:n // 2]):
